@@ -430,12 +430,38 @@ def user_subclass(cls, kind=True):
     return _SUBCLASSES[(cls, kind)]
 
 
+K_EXACT = 4148.808  # s MHz^2 cm^3 / pc: the "exact" dispersion constant some users prefer to the library's rounded 1 / 2.41e-4
+
+DM_KINDS = ["lib", "lib", "lib", "lib", "subclass", "instance"]
+
+
+def dm_kind(pb, D, kind):
+    """The dispersion constant K is the public attribute `dispersion_constant`: a user subclass may set its own, or assign one on an instance.
+    -> (the DM object of that kind with the same measure, K'/K as an exact Fraction: the delay and the chirp are linear in K*DM)"""
+    import astropy.units as u
+
+    if kind in (None, "lib"):
+        return D, F(1)
+    if kind == "subclass":
+        D2 = MyExactDM(D)
+    else:
+        D2 = pb.DM(D)
+        D2.dispersion_constant = K_EXACT * u.s * u.MHz**2 * u.cm**3 / u.pc
+    assert D2.unit == D.unit and D2.value == D.value, (D, D2)
+    return D2, F(K_EXACT) / O.K_DM
+
+
 def _define_user_subclasses():
     import pulsarbat as pb
 
     for name in CLASSES:
         user_subclass(getattr(pb, name))
         user_subclass(getattr(pb, name), "ctor")
+    import astropy.units as u
+
+    globals()["MyPhase"] = type("MyPhase", (pb.Phase,), {"__module__": __name__, "__qualname__": "MyPhase", "turns": lambda self: self["int"]})
+    globals()["MyExactDM"] = type("MyExactDM", (pb.DispersionMeasure,), {"__module__": __name__, "__qualname__": "MyExactDM",
+                                                                         "dispersion_constant": K_EXACT * u.s * u.MHz**2 * u.cm**3 / u.pc})
 
 
 _define_user_subclasses()
